@@ -19,7 +19,7 @@ use trusttunnel::verif_hooks::{self as vh, VUdpIn};
 const HDR: usize = 37; // 2 x (16 + 2) + 1, PROTOCOL.md 6.3
 const MAX_UDP_PAYLOAD: usize = 65_507;
 
-pub const KINDS: [&str; 16] = [
+pub const KINDS: [&str; 17] = [
     "valid-v4",
     "valid-v6",
     "dst-v6-loopback",
@@ -36,6 +36,7 @@ pub const KINDS: [&str; 16] = [
     "len-36",
     "len-too-large",
     "len-short-for-name",
+    "name-multibyte-utf8",
 ];
 
 fn put_ip(out: &mut Vec<u8>, ip: IpAddr) {
@@ -102,6 +103,8 @@ pub fn build(kind: usize, pos: u8) -> Vec<u8> {
             let p = vec![0u8; MAX_UDP_PAYLOAD + 1];
             record(s4, d4, b"", &p, None)
         }
+        // cuts inside a multi-byte character must not make the name invalid
+        "name-multibyte-utf8" => record(s4, d4, "\u{e9}\u{1f600}x\u{20ac}".as_bytes(), &pl, None),
         "len-short-for-name" => {
             // declares a 10-byte name but a total length that leaves room for 5 bytes after the header
             let mut v = record(s4, d4, &[b'y'; 10], b"", Some((HDR + 5) as u32));
